@@ -186,6 +186,17 @@ func init() {
 		"strings.EqualFold": func(ex *Exec, st *State, cc *ssa.CallCommon, a []Value) []Value {
 			return one(VBool{App("foldEq", SBool, strOf(a[0]), strOf(a[1]))})
 		},
+		"strings.HasPrefix": func(ex *Exec, st *State, cc *ssa.CallCommon, a []Value) []Value {
+			s, p := strOf(a[0]), strOf(a[1])
+			if n, ok := Blen(p).U64(); ok && n <= 64 {
+				conj := []*Term{BVUge(Blen(s), BVU(64, n))}
+				for i := uint64(0); i < n; i++ {
+					conj = append(conj, Eq(Select(Barr(s), BVU(64, i)), Select(Barr(p), BVU(64, i))))
+				}
+				return one(VBool{And(conj...)})
+			}
+			return one(VBool{App("hasPrefixU", SBool, s, p)})
+		},
 		"strings.TrimPrefix": func(ex *Exec, st *State, cc *ssa.CallCommon, a []Value) []Value {
 			return one(VStr{App("trimPrefix", SBytes, strOf(a[0]), strOf(a[1]))})
 		},
@@ -339,6 +350,9 @@ func init() {
 			ex.safe(st, "call:sdk.NewCoin(negative amount)", BVSge(amt.V, BV(bigW, 0)))
 			t := cc.Signature().Results().At(0).Type()
 			return one(VStruct{T: t, F: []Value{VStr{d}, amt}})
+		},
+		"github.com/cosmos/cosmos-sdk/types.ValidateDenom": func(ex *Exec, st *State, cc *ssa.CallCommon, a []Value) []Value {
+			return one(VErr{Not(App("validDenom", SBool, strOf(a[0])))})
 		},
 		"github.com/cosmos/cosmos-sdk/types.NewCoins": func(ex *Exec, st *State, cc *ssa.CallCommon, a []Value) []Value {
 			vs, ok := a[0].(VVals)
@@ -585,6 +599,25 @@ func (ex *Exec) paginate(st *State, cc *ssa.CallCommon, a []Value) []Value {
 	// Assumed: query.Paginate calls the callback on (key, value) pairs of the given prefix store and
 	// returns its first error. Model: zero or one symbolic invocation, result havocked.
 	ex.note(st, "assumed-contract:query.Paginate (callback invoked on entries of the store it was given)")
+	a0 := a[0]
+	if iv, ok := a0.(VIface); ok {
+		a0 = iv.Dyn
+	}
+	if sv, ok := a0.(VStore); ok {
+		st.pages = append(st.pages, sv.Prefix)
+	} else {
+		st.pages = append(st.pages, Fresh("unknownStore", SBytes))
+	}
+	// whatever the callback captured by reference may have been assigned
+	if cl, ok := a[2].(VClosure); ok {
+		for i, b := range cl.Bind {
+			if p, ok := b.(VPtr); ok && p.Cell > 0 && i < len(cl.Fn.FreeVars) {
+				if pt, ok := cl.Fn.FreeVars[i].Type().(*types.Pointer); ok {
+					st.cells[p.Cell] = ex.fresh(st, pt.Elem(), "paginate."+cl.Fn.FreeVars[i].Name(), 0)
+				}
+			}
+		}
+	}
 	sig := cc.Signature()
 	var res []Value
 	for i := 0; i < sig.Results().Len(); i++ {
